@@ -11,7 +11,18 @@ Parallel calls, inside one `with Parallel(...)` block or not, with
     sent, [thorough] while the result is being sent (watcher thread) / by timer on a 600 MB result (the F15 probe);
   * kills of idle workers between calls (with or without letting the manager thread notice first);
   * kills from the call's input generator ("during the next call's start-up");
-  * signal: SIGKILL, SIGTERM, SIGSEGV, os._exit(3), os._exit(0); victims 1..n_jobs.
+  * way of dying: SIGKILL, SIGTERM, SIGSEGV, SIGABRT, SIGBUS, SIGUSR1, SIGHUP, the real-time signals SIGRTMIN, SIGRTMIN+1,
+    SIGRTMAX-1 (the +k/-k ones have no name in signal.Signals), os._exit(3/0/1/255); victims 1..n_jobs;
+    `sys.exit()` inside the worker (NOT a death: BrokenProcessPool when raised while unpickling, the task's own
+    SystemExit otherwise);
+  * placement of the CALLER thread against the MANAGER thread (both live in the scenario process; method wrappers
+    installed there only, no source change): after an idle worker's death the manager thread is held at one step of its
+    death handling (wait..., terminate_broken, flag_as_broken, kill_workers, join_executor_internals, enter/exit) while
+    the next call runs its start-up up to configure / the first submit / all submits, then released (bounded hold);
+  * the manager thread's health: an exception escaping a thread of the scenario process is reported
+    (threading.excepthook); from the executor manager thread it is a failure class of its own;
+  * `_get_exitcode_name` (run by the manager thread while it builds the error message) against the model's
+    `getExitcodeName`, exhaustively over the exit codes -64..255.
 Observed per call: outcome class (ok / exception class name), latency, results complete+correct, id of the executor
 that served it (healed?), all canonicalised to a trace `ok@0 TerminatedWorkerError@0 ok@1 …`.
 
@@ -68,6 +79,11 @@ TRUSTED_EXTRA = [
     "the driver's exploration (Driver/C10.lean) is trusted: it composes the model's own events (take / sendResult / beginSend / kill / "
     "managerStep / getReusableExecutor / abortEverything) into joblib's call sequence, submits a call's tasks up front, identifies "
     "states up to renaming of worker pids (workers are interchangeable) and forgets executors whose manager has returned",
+    "the manager/caller placement scenarios wrap methods of _ExecutorManagerThread, _ExecutorFlags, LokyBackend.configure and "
+    "_ReusablePoolExecutor.submit INSIDE THE SCENARIO SUBPROCESS (pure delays / hand-offs around the original methods, bounded "
+    "hold of 1.2 s); C10.no_orphan_future is about the ORDER flag_as_broken -> fail-and-clear of terminate_broken (model: "
+    "terminateBrokenInterleaved); the model's managerStep still runs terminate_broken as one step",
+    "signal.Signals (which signal numbers have a name) is an input of getExitcodeName, read from the running interpreter",
     "the fault-injection runs tie the model to the code by OUTCOME CLASS only (exception class, executor id sequence, hang), "
     "not by event trace; racy schedules (a kill not followed by a pause) are checked by membership in the model's outcome set",
     "not modelled: Future.cancel, _on_queue_feeder_error (unpicklable task), interpreter shutdown and executor garbage collection, "
